@@ -378,6 +378,8 @@ def est_scenario(draw):
                          "value": draw(st.sampled_from([1 / 200.0, 1 / 50.0, 1 / 20.0, 1 / 1000.0, 0.1, 0.0]))}
         events.append(ev)
     return {"events": events, "initialize": draw(st.booleans()),
+            # number of initialisation attempts that report a non-zero error code before one succeeds
+            "init_fail": draw(st.sampled_from([0, 0, 0, 1, 2, 5])),
             "dt_min_accel": draw(st.sampled_from([None, 1 / 50.0, 1 / 20.0, 1 / 400.0, 0.1])),
             "dt_min_mag": draw(st.sampled_from([None, 1 / 50.0, 1 / 20.0, 1 / 400.0, 0.1]))}
 
@@ -397,6 +399,8 @@ def run_estimator(sc):
 
     def f_init(accel, mag, decl):
         calls["init"].append(cur["stamp"])
+        if len(calls["init"]) <= sc.get("init_fail", 0):
+            return ca.DM.zeros(6), ca.DM(3)
         return ca.DM.zeros(6), ca.DM(0)
 
     def f_predict(t, x, W, omega, std_gyro, sn, dt):
@@ -487,6 +491,8 @@ def est_classify(sc):
     a, m = sc["dt_min_accel"] or 1 / 200.0, sc["dt_min_mag"] or 1 / 200.0
     out.append("accel>mag" if a > m else "accel<mag" if a < m else "accel==mag")
     out.append("initialize" if sc["initialize"] else "no-initialize")
+    if sc["initialize"] and sc.get("init_fail", 0):
+        out.append("init-retries")
     return out
 
 
